@@ -138,8 +138,10 @@ class Resource(_ExposesWellknownAttributes, interfaces.Resource):
                 response_default = Code.CHANGED
             response.code = response_default
 
-        if response.opt.no_response is None:
-            response.opt.no_response = request.opt.no_response
+        if response.opt.no_response is None and request.opt.no_response is not None:
+            # The note goes on a copy: the handler may keep its response and
+            # return the same object for a request that has no such option
+            response = response.copy(no_response=request.opt.no_response)
 
         return response
 
